@@ -1979,4 +1979,165 @@ Proof.
   - intros q Hl m. apply (b_ep _ B i j pi pj q Hne Hi Hj Hl m).
 Qed.
 
+(* ------------------------------------------------------------------ the sizes reported by the API are sums over repo.json *)
+Lemma sum_sizes_cons : forall e l, sum_sizes (e :: l) = snd e + sum_sizes l.
+Proof. reflexivity. Qed.
+
+Lemma sum_remove_key : forall l q sz, NoDup (map fst l) -> In (q, sz) l -> sum_sizes (remove_key q l) + sz = sum_sizes l.
+Proof.
+  induction l as [|[k v] r IH]; intros q sz ND Hin; [destruct Hin|].
+  cbn [map fst] in ND. apply NoDup_cons_iff in ND. destruct ND as [Hnin ND].
+  cbn [remove_key]. destruct (q =? k) eqn:E.
+  - apply N.eqb_eq in E; subst k. destruct Hin as [Hin|Hin].
+    + inversion Hin; subst. rewrite sum_sizes_cons. cbn [snd].
+      assert (remove_key q r = r).
+      { clear -Hnin. induction r as [|[k2 v2] r IH]; cbn; auto. cbn in Hnin.
+        destruct (q =? k2) eqn:E2; [apply N.eqb_eq in E2; subst; tauto|]. rewrite IH; auto. }
+      rewrite H. lia.
+    + exfalso. apply Hnin. apply in_map_iff. exists (q, sz); auto.
+  - assert (k <> q) by (intros ->; rewrite N.eqb_refl in E; discriminate).
+    destruct Hin as [Hin|Hin]; [inversion Hin; congruence|].
+    rewrite !sum_sizes_cons. cbn [snd]. rewrite <- (IH q sz ND Hin). lia.
+Qed.
+
+Lemma NoDup_app_l : forall A (a b : list A), NoDup (a ++ b) -> NoDup a.
+Proof.
+  induction a as [|x a IH]; intros b H; [constructor|].
+  cbn in H. apply NoDup_cons_iff in H. destruct H as [Hn H]. constructor; [|eapply IH; eauto].
+  intros Hin. apply Hn. apply in_app_iff; auto.
+Qed.
+
+Definition gsz (pr : proc) : Prop :=
+  match p_pc pr with
+  | IWrite | IUnlock => p_size pr = sum_sizes (p_meta pr)
+  | GScan | GScanUnlock =>
+      NoDup (map fst (p_meta pr)) /\ p_size pr + sum_sizes (p_todo pr) = sum_sizes (p_meta pr) /\
+      (forall c, In c (p_cands pr) -> In (c_id c, c_size c) (p_meta pr)) /\ (forall e, In e (p_todo pr) -> In e (p_meta pr))
+  | GScanLock =>
+      NoDup (map fst (p_meta pr)) /\ p_size pr + sum_sizes (tl (p_todo pr)) = sum_sizes (p_meta pr) /\
+      (forall c, In c (p_cands pr) -> In (c_id c, c_size c) (p_meta pr)) /\ (forall e, In e (p_todo pr) -> In e (p_meta pr))
+  | GMove | GUnlock =>
+      NoDup (map fst (p_meta pr)) /\ (forall c, In c (p_queue pr) -> In (c_id c, c_size c) (p_meta pr)) /\
+      NoDup (map c_id (p_queue pr)) /\ (g_dry pr = false -> p_size pr = sum_sizes (p_meta pr))
+  | _ => True
+  end.
+
+Lemma gsz_trivial : forall pr, gphase (p_pc pr) = false -> p_pc pr <> GUnlock -> p_pc pr <> IWrite -> p_pc pr <> IUnlock -> gsz pr.
+Proof. unfold gsz; intros pr H1 H2 H3 H4; destruct (p_pc pr); cbn in *; try discriminate; try congruence; exact I. Qed.
+
+Lemma NoDup_sorted_ids : forall l, NoDup (map c_id l) -> NoDup (map c_id (sort_cands l)).
+Proof. intros l H. eapply Permutation_NoDup; [|exact H]. apply Permutation_map, Permutation_sym, sort_cands_perm. Qed.
+
+Lemma g_dry_ops : forall pr pr', p_ops pr' = p_ops pr -> g_dry pr' = g_dry pr.
+Proof. unfold g_dry, cur; intros pr pr' E; rewrite E; reflexivity. Qed.
+
+
+Lemma gsz_after_scan : forall pr pr',
+  NoDup (map fst (p_meta pr)) -> p_size pr + sum_sizes (p_todo pr) = sum_sizes (p_meta pr) ->
+  (forall c, In c (p_cands pr) -> In (c_id c, c_size c) (p_meta pr)) -> (forall e, In e (p_todo pr) -> In e (p_meta pr)) ->
+  NoDup (map c_id (p_cands pr)) ->
+  after_scan pr = inl pr' -> gsz pr'.
+Proof.
+  intros pr pr' ND SZ CS TD NC H. apply after_scan_inl in H. destruct H as [->|[Ht [->| ->]]]; unfold gsz; simp_st.
+  - auto.
+  - split; auto. split; [intros c Hc; apply CS; apply In_sort_cands; auto|]. split; [apply NoDup_sorted_ids; auto|].
+    intros _. rewrite Ht in SZ. cbn in SZ. lia.
+  - split; auto. split; [intros c Hc; apply CS; apply In_sort_cands; auto|]. split; [apply NoDup_sorted_ids; auto|].
+    intros _. rewrite Ht in SZ. cbn in SZ. lia.
+Qed.
+
+Lemma gsz_step : forall s i s' pr pr', full_inv s -> step s i = Some s' -> proc_at s i pr -> proc_at s' i pr' ->
+  gsz pr -> gsz pr'.
+Proof.
+  intros s i s' pr0 pr' F H Hp0 Hp' G. unfold proc_at in *.
+  pose proof (f_acct _ F) as A.
+  step_cases H pr Hpr Hpc; subst; inversion Hp0; subst pr0; clear Hp0;
+    unfold flush_repo in *;
+    repeat match type of Hp' with context [if ?b then _ else _] => destruct b eqn:? end;
+    cbn [st_procs upd_proc with_store with_repo with_links with_log with_dir] in Hp';
+    rewrite (nth_error_set_nth_same _ _ _ _ _ Hpr) in Hp'; inversion Hp'; subst pr'; clear Hp';
+    try (apply gsz_trivial;
+         [rewrite ?finish_pc, ?gphase_start, ?gphase_use_return, ?gphase_gc_return; reflexivity
+         |intros Hx; pc_contra Hx|intros Hx; pc_contra Hx|intros Hx; pc_contra Hx]; fail);
+    unfold gsz in G; rewrite Hpc in G.
+  - (* ILockRepo *) unfold gsz; simp_st. reflexivity.
+  - (* IWrite *) unfold gsz; simp_st. exact G.
+  - (* GLock *)
+    pose proof (no_holder_free _ A Heqb) as Hnt.
+    assert (Hl : st_repo s = Some l) by (unfold disk_repo in Heqo; rewrite Hnt in Heqo; destruct (st_repo s); congruence).
+    eapply gsz_after_scan; [| | | | |eassumption]; simp_st.
+    + pose proof (a_nd _ A) as ND. unfold pkgs in ND. rewrite Hl in ND. exact ND.
+    + lia.
+    + intros c [].
+    + auto.
+    + constructor.
+  - (* GScan -> GScanLock *)
+    destruct G as (ND & SZ & CS & TD). rewrite Heql in SZ, TD. rewrite sum_sizes_cons in SZ. cbn [snd] in SZ.
+    unfold gsz; simp_st. cbn [tl]. repeat split; auto. lia.
+  - (* GScan, directory gone *)
+    destruct G as (ND & SZ & CS & TD). rewrite Heql in SZ, TD. rewrite sum_sizes_cons in SZ. cbn [snd] in SZ.
+    pose proof (a_gc _ A i pr Hpr ltac:(rewrite Hpc; reflexivity)) as [G1 _].
+    destruct (G1 ltac:(rewrite Hpc; discriminate)) as [NDI _]. unfold scan_ids in NDI. apply NoDup_app_l in NDI.
+    eapply gsz_after_scan; [| | | | |eassumption]; simp_st; auto.
+    + lia.
+    + intros e He. apply TD. right; auto.
+  - (* GScanLock, candidate *)
+    destruct G as (ND & SZ & CS & TD). rewrite Heql in SZ, TD. cbn [tl] in SZ.
+    unfold gsz; simp_st. repeat split; auto.
+    + intros c0 Hc. apply in_app_iff in Hc. destruct Hc as [Hc|[<-|[]]]; auto. cbn [c_id c_size]. apply TD. left; reflexivity.
+    + intros e He. apply TD. right; auto.
+  - (* GScanLock, no candidate *)
+    destruct G as (ND & SZ & CS & TD). rewrite Heql in SZ, TD. cbn [tl] in SZ.
+    unfold gsz; simp_st. repeat split; auto. intros e He. apply TD. right; auto.
+  - (* GScanUnlock *)
+    destruct G as (ND & SZ & CS & TD).
+    pose proof (a_gc _ A i pr Hpr ltac:(rewrite Hpc; reflexivity)) as [G1 _].
+    destruct (G1 ltac:(rewrite Hpc; discriminate)) as [NDI _]. unfold scan_ids in NDI. apply NoDup_app_l in NDI.
+    eapply gsz_after_scan; eauto.
+  - (* GMove, dry run *)
+    destruct G as (ND & CS & NQ & SZ). rewrite Heql in CS, NQ. cbn [map] in NQ. apply NoDup_cons_iff in NQ. destruct NQ as [Hnin NQ].
+    apply move_next_inl in Heqs0. destruct Heqs0 as [-> | ->]; unfold gsz; simp_st;
+      (split; [exact ND|]); (split; [intros c' Hc'; apply CS; right; exact Hc'|]); (split; [exact NQ|]);
+      intros Hd; change (g_dry pr = false) in Hd; congruence.
+  - (* GMove, collect *)
+    destruct G as (ND & CS & NQ & SZ). rewrite Heql in CS, NQ. cbn [map] in NQ. apply NoDup_cons_iff in NQ. destruct NQ as [Hnin NQ].
+    assert (Hc : In (c_id c, c_size c) (p_meta pr)) by (apply CS; left; reflexivity).
+    pose proof (sum_remove_key _ _ _ ND Hc) as Hsum. specialize (SZ Heqb).
+    apply move_next_inl in Heqs0. destruct Heqs0 as [-> | ->]; unfold gsz; simp_st;
+      (split; [apply NoDup_remove_key; exact ND|]);
+      (split; [intros c' Hc'; apply In_remove_key; split; [intros E; apply Hnin; rewrite <- E; apply in_map; exact Hc'|apply CS; right; exact Hc']|]);
+      (split; [exact NQ|]); intros _; lia.
+Qed.
+
+Lemma gsz_all : forall procs sched i pr, wf_procs procs ->
+  nth_error (st_procs (run (init dir procs) sched)) i = Some pr -> gsz pr.
+Proof.
+  intros procs sched i pr WF. revert i pr.
+  induction sched as [|a sched IH] using rev_ind; intros i pr Hi.
+  - cbn in Hi. destruct (WF pr) as (q & au & ops & ->); [eapply nth_error_In; exact Hi|].
+    apply gsz_trivial; cbn [p_pc mk_proc]; [apply gphase_start| | |];
+      intros E; destruct (start_pc_cases ops) as [E2|[E2|[E2|[E2|E2]]]]; rewrite E2 in E; discriminate.
+  - rewrite run_snoc in Hi. destruct a as [k|]; cbn [act] in Hi; [|apply (IH i pr Hi)].
+    destruct (step (run (init dir procs) sched) k) as [s'|] eqn:Hst; [|apply (IH i pr Hi)].
+    destruct (Nat.eq_dec i k) as [->|Hne].
+    + destruct (step_proc_at_self _ _ _ Hst) as (pr0 & pr1 & Hp & Hp').
+      assert (pr1 = pr) by (unfold proc_at in *; congruence); subst pr1.
+      eapply gsz_step; [apply (full_run _ sched (full_init _ WF))|exact Hst|exact Hp|exact Hp'|apply (IH k pr0 Hp)].
+    + apply (step_proc_at_other _ _ _ i pr Hst) in Hi; auto. apply (IH i pr Hi).
+Qed.
+
+(* the repository size computed by __addPackage and by a (not dry) gc is the sum of repo.json *)
+Lemma reported_size_is_sum_proof : forall procs sched i pr,
+  wf_procs procs -> nth_error (st_procs (run (init dir procs) sched)) i = Some pr ->
+  (p_pc pr = IWrite \/ p_pc pr = IUnlock \/ ((p_pc pr = GMove \/ p_pc pr = GUnlock) /\ g_dry pr = false)) ->
+  p_size pr = sum_sizes (pkgs (run (init dir procs) sched)).
+Proof.
+  intros procs sched i pr WF Hi Hpc.
+  pose proof (gsz_all procs sched i pr WF Hi) as G.
+  pose proof (f_acct _ (full_run _ sched (full_init _ WF))) as A.
+  assert (Hm : repo_mode (p_pc pr) = Some true) by (destruct Hpc as [E|[E|[[E|E] _]]]; rewrite E; reflexivity).
+  destruct (a_rl _ A i pr Hi Hm) as [E1 _]. unfold pkgs. rewrite E1.
+  unfold gsz in G. destruct Hpc as [E|[E|[[E|E] Hd]]]; rewrite E in G; auto; destruct G as (_ & _ & _ & G); auto.
+Qed.
+
 End WithDir.
